@@ -120,12 +120,33 @@ def augment_stage(tier, viol, samples):
     return r, n, recs
 
 
+def score(env, td0, actions):
+    """objective of `actions` on the (reset) instances td0; environments whose objective is read from the rollout state
+    (mTSP min-max) are stepped through the actions first"""
+    if env.name != "mtsp":
+        return env.get_reward(td0, actions)
+    td = td0.clone()
+    for t in range(actions.shape[1]):
+        td.set("action", actions[:, t])
+        td = env.step(td)["next"]
+    return env.get_reward(td, actions)
+
+
+def extra_adapters():
+    """mTSP (min-max objective is read from the rollout STATE, so a best-of-k selection must hand back the state of the best rollout)"""
+    from ..envs.mtsp import MTSP
+
+    a = MTSP()
+    a.tag = a.name
+    return [a]
+
+
 def eval_stage(ad, tier, seed, viol, samples):
     from rl4co.tasks.eval import (AugmentationEval, GreedyEval, GreedyMultiStartAugmentEval, GreedyMultiStartEval,
                                   SamplingEval)
     from rl4co.utils.ops import batchify, unbatchify
 
-    fam = [i for i in small_family(ad, tier) if i["grid"] in (16, 32)]
+    fam = [i for i in small_family(ad, tier) if i["grid"] in (16, 32) and i.get("variant", "minmax") == "minmax"]
     groups = {}
     for i in fam:
         groups.setdefault(ad.group_key(i), []).append(i)
@@ -143,7 +164,7 @@ def eval_stage(ad, tier, seed, viol, samples):
     with torch.inference_mode():
         td0 = env.reset(td_raw.clone())
         g = policy(td0.clone(), env, decode_type="greedy")
-        greedy = [int(round(float(x) * ad.scale(i))) for x, i in zip(env.get_reward(td0, g["actions"]).tolist(), insts)]
+        greedy = [int(round(float(x) * ad.scale(i))) for x, i in zip(score(env, td0, g["actions"]).tolist(), insts)]
     methods = {
         "greedy": lambda: GreedyEval(env, progress=False),
         "multistart": lambda: GreedyMultiStartEval(env, num_starts=K, progress=False),
@@ -152,6 +173,10 @@ def eval_stage(ad, tier, seed, viol, samples):
         "multistart_augment": lambda: GreedyMultiStartAugmentEval(env, num_starts=K, num_augment=8, force_dihedral_8=True, progress=False),
         "sampling": lambda: SamplingEval(env, samples=4, progress=False),
     }
+    if ad.name == "mtsp":
+        # the evaluators that re-score on the un-augmented instance call env.get_reward(reset td, actions), which the min-max
+        # objective (read from the rollout state) does not support: only SamplingEval (policy's own reward) applies
+        methods = {"sampling": methods["sampling"]}
     for name, mk in methods.items():
         for bs in ((2,) if tier == "quick" else (1, 2, 3, n)):
             torch.manual_seed(seed)
@@ -164,12 +189,12 @@ def eval_stage(ad, tier, seed, viol, samples):
                 td0 = env.reset(td_raw.clone())
                 if name == "multistart":
                     o = policy(td0.clone(), env, decode_type="multistart_greedy", num_starts=K)
-                    rw = unbatchify(env.get_reward(batchify(td0, K), o["actions"]), K)
+                    rw = unbatchify(score(env, batchify(td0, K), o["actions"]), K)
                     cands = [[int(round(float(v) * ad.scale(insts[b]))) for v in rw[b].tolist()] for b in range(n)]
                 elif name == "augment_dihedral":
                     ev = mk()
                     o = policy(ev.augmentation(td0.clone()).clone(), env, decode_type="greedy", num_starts=0)
-                    rw = unbatchify(env.get_reward(batchify(td0, 8), o["actions"]), 8)
+                    rw = unbatchify(score(env, batchify(td0, 8), o["actions"]), 8)
                     cands = [[int(round(float(v) * ad.scale(insts[b]))) for v in rw[b].tolist()] for b in range(n)]
             for b in range(n):
                 recs.append({"method": name, "loader_batch": bs, "inst": insts[b],
@@ -177,6 +202,26 @@ def eval_stage(ad, tier, seed, viol, samples):
                              "reward": int(round(float(res["rewards"][b]) * ad.scale(insts[b]))),
                              "cands": cands[b], "greedy": greedy[b], "has_id": has_id,
                              "eps": 0 if name != "augment_symmetric" else 0})
+        # the SAME evaluator object used for a second data set (the instances in reverse order): row b of the second result
+        # belongs to instance n-1-b, and there are exactly n rows
+        ev = mk()
+        torch.manual_seed(seed)
+        ev(policy, DataLoader(IdDataset(td_raw.clone()), batch_size=2, collate_fn=lambda x: x))
+        rev = list(range(n - 1, -1, -1))
+        torch.manual_seed(seed + 1)
+        res2 = ev(policy, DataLoader(IdDataset(td_raw[torch.tensor(rev)].clone()), batch_size=2, collate_fn=lambda x: x))
+        if len(res2["rewards"]) != n or len(res2["actions"]) != n:
+            viol.append({"property": "C15", "env": ad.name + "/" + name, "monitor": "rows-of-second-evaluation",
+                         "inst": {"n": n}, "actions": [],
+                         "detail": "evaluator re-used for a second data set of %d instances returns %d rewards / %d action rows"
+                                   % (n, len(res2["rewards"]), len(res2["actions"]))})
+        for b in range(min(n, len(res2["rewards"]))):
+            i = insts[rev[b]]
+            recs.append({"method": name + " (evaluator re-used)", "loader_batch": 2, "inst": i,
+                         "actions": [int(a) for a in res2["actions"][b].tolist()],
+                         "reward": int(round(float(res2["rewards"][b]) * ad.scale(i))),
+                         "cands": [], "greedy": greedy[rev[b]], "has_id": name in ("greedy", "augment_dihedral", "augment_symmetric"),
+                         "eps": 0})
     return recs
 
 
@@ -196,7 +241,7 @@ def run(tier, seed):
         viol.append({"property": "C15", "env": "symmetric", "monitor": f[1], "inst": {"copy": sym[f[0]]["copy"]}, "actions": [],
                      "detail": "largest distance change %s units of 1e-5" % sym[f[0]]["worst"]})
     ntr = len(sym)
-    for ad in adapters():
+    for ad in adapters() + extra_adapters():
         recs = eval_stage(ad, tier, seed, viol, samples)
         wd, root = tlc.prepare("evaltrace_" + ad.name, template="EvalTrace", env_module=ad.module)
         f = os.path.join(wd, "recs.ndjson")
